@@ -44,6 +44,8 @@ pub struct Ctx {
     pub counters: BTreeMap<String, u64>,
     /// Values stashed by `stash(k, v)` are not kept (only their encodings).
     pub stash: BTreeMap<String, String>,
+    /// Invariants stated by the program itself (`expect_eq`) that did not hold.
+    pub problems: Vec<String>,
 }
 
 thread_local! {
@@ -215,6 +217,19 @@ fn harness_natives(builder: &mut GlobalsBuilder) {
     /// Set the module's extra value.
     fn set_extra<'v>(v: Value<'v>, eval: &mut Evaluator<'v, '_, '_>) -> anyhow::Result<NoneType> {
         eval.module().set_extra_value(v);
+        Ok(NoneType)
+    }
+
+    /// An invariant stated by the program: both values must have the same canonical encoding.
+    fn expect_eq<'v>(a: Value<'v>, b: Value<'v>, #[starlark(default = "")] label: &str) -> anyhow::Result<NoneType> {
+        let (ea, eb) = (encode(a), encode(b));
+        let ok = ea == eb;
+        ctx(|c| {
+            c.transcript.push(format!("expect_eq {label} {}", if ok { "ok" } else { "MISMATCH" }));
+            if !ok {
+                c.problems.push(format!("{label}: `{}` != `{}`", clip(&ea), clip(&eb)));
+            }
+        });
         Ok(NoneType)
     }
 
